@@ -11,6 +11,8 @@ import interp
 import codec
 import disasm
 import asm
+import vmapi
+import jit as jit_unit
 
 MACHINERY_FILES = ('src/spec.rs', 'contract.rs', 'src/shadow.rs', 'src/x86.rs')
 
@@ -198,6 +200,8 @@ UNITS = {
     'codec': dict(run=kani_unit(codec.generate, harness_file='src/lib.rs')),
     'disasm': dict(run=kani_unit(disasm.generate, harness_file='src/disassembler/harnesses.rs')),
     'asm': dict(run=kani_unit(asm.generate, harness_file='src/assembler.rs')),
+    'vmapi': dict(run=kani_unit(vmapi.generate, harness_file='src/harnesses.rs')),
+    'jit': dict(run=kani_unit(jit_unit.generate, harness_file='src/jit/harnesses.rs')),
     'asmtable': dict(run=native_unit(['asm-table'], 'assemble() of the documented mnemonic')),
 }
 
